@@ -70,7 +70,7 @@ const size_t cif11_chars_elements = ((sizeof cif11_chars) / (sizeof cif11_chars[
  *
  * The disallowed characters are
  *   those with code points less than U+0020, EXCEPT U+0009, U+000A, and U+000D;
- *   U+007F;
+ *   U+007F - U+009F;
  *   U+FDD0 - U+FDEF;
  *   code points U+xxxxxx where (xxxxxx & 0xFFFE) is 0xFFFE
  */
@@ -136,7 +136,7 @@ static int cif_has_disallowed_chars(const UChar *str) {
     for (c = str; *c != 0; c++) {
         if (*c < MIN_HIGH_SURROGATE || *c > MAX_LOW_SURROGATE) {
             if (((*c < 0x20) && (*c != 0x9) && (*c != 0xa) && (*c != 0xd)) 
-                    || (*c == 0x7f)
+                    || ((*c >= 0x7f) && (*c <= 0x9f))  /* DEL and the C1 controls */
                     || ((*c > 0xfdcf) && (*c < 0xfdf0))
                     || (*c > 0xfffd)) {
                 /* a disallowed BMP character */
